@@ -651,7 +651,12 @@ pub fn main_entry(
 				}
 				let cur = std::fs::read_to_string(&marker).unwrap_or_default();
 				let logtail = tail(&work.join(format!("shard{}.log", s)), 30);
-				if spec.crash_is_violation && !cur.is_empty() {
+				// exit status 101 is an uncaught Rust panic: every library call of a case runs under
+				// catch_unwind, so a panic that takes the whole shard down comes from the harness
+				// itself (generator, bookkeeping) - that is inconclusive, never a violation. Death by
+				// signal (SIGSEGV / SIGBUS / abort) can only come out of the library's unsafe code.
+				let harness_panic = st.code() == Some(101);
+				if spec.crash_is_violation && !cur.is_empty() && !harness_panic {
 					merged.violation(
 						format!("failure=process_abort;status={:?}", st.code().map(|c| c.to_string()).unwrap_or_else(|| format!("signal{}", std::os::unix::process::ExitStatusExt::signal(&st).unwrap_or(0)))),
 						format!("shard {} died ({:?}) while running case [{}]; log tail:\n{}", s, st, cur, logtail),
